@@ -2007,9 +2007,9 @@ func (g *gen) caseSrv(name string) {
 		}
 	}
 	if g.late {
-		// a token that expires three seconds after the case started, presented twice while valid
+		// a token that expires five seconds after the case started, presented twice while valid
 		// and once more two seconds after its expiry (whatever disconnect-on-expiry says)
-		g.forceExp = "3"
+		g.forceExp = "5"
 		g.tok("5", c, 0, nil)
 		g.forceExp = ""
 		p := paths[0]
@@ -2017,7 +2017,7 @@ func (g *gen) caseSrv(name string) {
 		if g.chance(40) {
 			x, a = a, x
 		}
-		g.p("late %s GET %s %s %s %s 5", kind, Hx(p), x, a, tenant)
+		g.p("late %s GET %s %s %s %s 7", kind, Hx(p), x, a, tenant)
 	}
 }
 
